@@ -158,6 +158,32 @@ CHECKS = {
         note=TB + " Bit-identity on non-refresh steps is object identity / pointwise equality in the VC; lax.cond/while_loop per section 4.3.",
         technique="contract-based deductive verification: transition contract with symbolic step counter, AST->VC, z3",
     ),
+    "C08": dict(
+        text=("Block locality as a relational frame condition, decided by a reads analysis of the symbolic terms produced by "
+              "executing the real code (reductions, contractions and batched eigh expanded through their operands): for Tearfree "
+              "Shampoo's _update_block_stats, _pth_inv_root/_update_block_precond, _precondition_blocks and the whole _update "
+              "(6 placements of large axes, symbolic number of blocks) every output of block b0 reads gradient, statistics and "
+              "roots of block b0 only, and the einsum contracts axis a with root a; for Distributed Shampoo (2 blocks, symbolic "
+              "dims) statistic k reads the gradient inside block k//n only and block i is preconditioned by roots [i*n,(i+1)*n) and "
+              "its own gradient only. Two runs agreeing on a block's reads agree on its outputs."),
+        design="7/C08",
+        note=TB + " Reads analysis (pyvc/deps.py): a term's value is a function of its reads; batched eigh is block-local (library contract).",
+        technique="contract-based deductive verification: relational frame condition via dependency (reads) analysis of AST->term symbolic execution, z3",
+    ),
+    "C11": dict(
+        text=("The real QuantizedValue.quantize / to_float / from_float_value executed pointwise in bit-precise float32 (z3 "
+              "FloatingPoint, RNE, flush-to-zero): for every finite column of a rank 1..3 tensor, int8 and int16: the stored integer "
+              "never wraps (decomposed: one-variable lemma |y|<=N+1/4 => |rint(y)|<=N; |x_w/bucket|<=N+1/4 at the row attaining the "
+              "column maximum - bit-precise for int8, and for int16 under the standard rounding model plus an exhaustive "
+              "enumeration of all 2.1e9 float32 values on the real code in every run; monotonicity of IEEE division as a library "
+              "axiom), zeros are reproduced exactly, the extracted diagonal is stored and returned bit-for-bit; the half-bucket "
+              "bound under the standard rounding model; idempotence of the integers in the thorough tier. Known finding: "
+              "overflow to inf within one rounding of FLT_MAX."),
+        design="7/C11",
+        note=TB + " Float model as in C03; astype(int) of an integral in-range float is exact; IEEE division is monotone in |dividend|; "
+        "the int16 maximising-row bound is an explicit assumption of the bit-precise chain backed by the rounding-model proof and the exhaustive enumeration.",
+        technique="contract-based deductive verification: bit-precise QF_FP postconditions of the real code (z3), real-arithmetic rounding-model lemma; exhaustive native enumeration of one single-variable lemma as labelled stand-in",
+    ),
 }
 
 NA_REASON = "check not built yet (build in progress); the planned contract kernel is described in DESIGN.md section 7"
